@@ -19,7 +19,10 @@ var resvWords = []string{"break", "case", "catch", "continue", "debugger", "defa
 	"instanceof", "new", "return", "switch", "this", "throw", "try", "typeof", "var", "void", "while", "with",
 	"class", "const", "enum", "export", "extends", "import", "super", "null", "true", "false"}
 var resvControls = []string{"iff", "i", "f", "vars", "va", "let", "static", "implements", "interface", "package", "private", "protected", "public", "yield",
-	"In", "Var", "nul", "truee", "False", "thiss", "news", "doo", "x", "$if", "_var", "if_", "typeOf", "instanceOf", "undefined", "NaN", "eval", "arguments", "get", "set", "of"}
+	"In", "Var", "nul", "truee", "False", "thiss", "news", "doo", "x", "$if", "_var", "if_", "typeOf", "instanceOf", "undefined", "NaN", "eval", "arguments", "get", "set", "of",
+	// IdentifierName beyond letters and ASCII digits (ES5 7.6): combining marks (Mn, Mc), non-ASCII digits (Nd), connector
+	// punctuation (Pc), letter numbers (Nl), modifier/other letters, ZWNJ/ZWJ
+	"e\u0301", "x\u0300\u0301y", "a\u0903", "a\u0663", "n\u0966\u0967", "a\u203f", "a\u2040b", "\u2160", "\u2167x", "\u2118", "\u00aa", "\u02b0x", "\u3007", "a\u200db", "a\u200cb", "\u0646\u200c\u0647"}
 
 var resvPositions = []struct{ name, pre, post string }{
 	{"var", "var ", " = 2;"},
@@ -46,6 +49,25 @@ func esc(c byte, upper bool) string {
 
 func spellings(w string) []string {
 	out := []string{w}
+	ascii := true
+	for i := 0; i < len(w); i++ {
+		if w[i] >= 0x80 {
+			ascii = false
+		}
+	}
+	if !ascii {
+		// every character written as an escape (all are in the BMP), and only the non-ASCII ones
+		var all, some strings.Builder
+		for _, r := range w {
+			all.WriteString(fmt.Sprintf("\\u%04x", r))
+			if r >= 0x80 {
+				some.WriteString(fmt.Sprintf("\\u%04X", r))
+			} else {
+				some.WriteRune(r)
+			}
+		}
+		return append(out, all.String(), some.String())
+	}
 	n := len(w)
 	at := func(i int, upper bool) string { return w[:i] + esc(w[i], upper) + w[i+1:] }
 	out = append(out, at(0, false), at(n-1, false), at(n/2, true))
@@ -64,7 +86,9 @@ func genResv(c *h.Ctx) {
 	for _, list := range [][]string{resvWords, resvControls} {
 		for _, w := range list {
 			for _, sp := range spellings(w) {
-				c.Add("resvtok x"+astx.Hex(sp), "resvtok")
+				if !strings.Contains(w, "\u200c") && !strings.Contains(w, "\u200d") {
+					c.Add("resvtok x"+astx.Hex(sp), "resvtok")
+				}
 				for _, p := range resvPositions {
 					c.Add("resv "+p.name+" x"+astx.Hex(sp), "resv", "resv:"+p.name)
 				}
